@@ -1294,6 +1294,7 @@ func runC19(c *Ctx) {
 			var parser syntax.Parser
 			plain, err := parser.UncheckedParse([]byte(cs.Src), cs.Path)
 			if err == nil {
+				c19GraphTieCase(c, cs, plain, base)
 				enc := c19Encode(plain)
 				reqs := make([][]string, len(plan))
 				for i, pl := range plan {
@@ -1504,5 +1505,12 @@ func runC19(c *Ctx) {
 		gens = gens[:40]
 	}
 	c19RunFiles(c, gens, func() string { freshN++; return fmt.Sprintf("ZZ_NEW%d", freshN) })
+	if c.Drv != nil && os.Getenv("C19_ONLY_CORPUS") == "" {
+		nx := 120
+		if c.Thorough {
+			nx = 300
+		}
+		c19GraphExtra(c, nx)
+	}
 	r.note("programs: %d (generated %d, rejected by the compiler %d); time spent shrinking failing inputs: %.1fs; child restarts after a crash: %d", len(cases), made, rejected, shrinkTime.Seconds(), c19W.deaths)
 }
